@@ -33,6 +33,8 @@ def main():
 import ("testing"; "bytes")
 type verifReader struct{ b []byte; used int }
 func (r *verifReader) Read(p []byte) (int, error) { n := copy(p, r.b[r.used:]); r.used += n; return n, nil }
+type chunkReader struct{ b []byte; used, chunk int }
+func (r *chunkReader) Read(p []byte) (int, error) { if len(p) > r.chunk { p = p[:r.chunk] }; n := copy(p, r.b[r.used:]); r.used += n; return n, nil }
 func TestVerifReplay(t *testing.T) {
 	cases := []struct{ d, e, k, r, s []byte }{
 %s
@@ -42,6 +44,12 @@ func TestVerifReplay(t *testing.T) {
 		r, s, err := SignHashed(rd, c.d, c.e)
 		if err != nil { t.Fatalf("case %%d (key of %%d bytes): sign error %%v", i, len(c.d), err) }
 		if !bytes.Equal(r, c.r) || !bytes.Equal(s, c.s) || rd.used != 32 { t.Fatalf("case %%d (key %%x): r=%%x s=%%x used=%%d, GM/T 0003.2 gives r=%%x s=%%x used=32", i, c.d, r, s, rd.used, c.r, c.s) }
+		// the same stream delivered in chunks (short reads without error are legal for an io.Reader): same nonce, same signature
+		for _, chunk := range []int{16, 1, 31} {
+			cr := &chunkReader{b: c.k, chunk: chunk}
+			r2, s2, err := SignHashed(cr, c.d, c.e)
+			if err != nil || !bytes.Equal(r2, c.r) || !bytes.Equal(s2, c.s) || cr.used != 32 { t.Fatalf("case %%d: with a reader delivering %%d bytes per call r=%%x s=%%x used=%%d err=%%v, GM/T 0003.2 gives r=%%x s=%%x used=32", i, chunk, r2, s2, cr.used, err, c.r, c.s) }
+		}
 	}
 }''' % '\n'.join(sv)
     ok0, out0, path0 = ck.go_test('sm2', src0, name='special_vectors')
